@@ -1018,3 +1018,864 @@ def shrink(doc, still_fails, budget=150):
             except Exception:
                 continue
     return cur
+
+
+# ===================================================================================================================
+# C17 — fault injection (appended; nothing above is changed). Extended document fields, all optional:
+#   component['xunits']    : [unit definition, ...]  <units> elements INSIDE the component (unsupported feature)
+#   component['reactions'] : n                       n schema-valid <reaction> elements (unsupported feature)
+#   component['badeqs']    : [{'at': j, 'lhs': xexpr, 'rhs': expr}]  an own <math> element before <math> number j whose
+#                            left-hand side is not a variable / first derivative; xexpr adds ['diffn', x, t, n]
+#   unit element 'offset'  : text
+#   doc['xml_faults']      : [{'kind':..., 'site': i}]  text-level damage applied after rendering (schema faults)
+# `spec_violations(doc)` is a reference validator written from the CellML 1.0 specification (sections 3.4, 4.4, 5.4,
+# 6.4) — not from parser.py: it says which fault classes a document has, hence whether load_model must refuse it.
+def xexpr_xml(e):
+    if e[0] == 'diffn':
+        return ('<apply><diff/><bvar><ci>%s</ci><degree><cn cellml:units="dimensionless">%d</cn></degree></bvar>'
+                '<ci>%s</ci></apply>' % (_esc(e[2]), e[3], _esc(e[1])))
+    return expr_xml(e)
+
+
+def units_xml(u):
+    if u.get('base'):
+        return '<units name="%s" base_units="yes"/>\n' % _esc(u['name'])
+    return '<units name="%s">%s</units>\n' % (_esc(u['name']), ''.join(
+        '<unit %s/>' % ' '.join('%s="%s"' % (k, _esc(e[k])) for k in ('units', 'prefix', 'exponent', 'multiplier', 'offset')
+                                if e.get(k) is not None) for e in u['elems']))
+
+
+def to_xml_x(doc):
+    """`to_xml` plus the extended fields (same text as `to_xml` on a document that has none of them)"""
+    out = ['<?xml version="1.0" encoding="utf-8"?>\n<model name="%s"%s xmlns="%s" xmlns:cellml="%s" xmlns:cmeta="%s">\n'
+           % (_esc(doc['name']), (' cmeta:id="%s"' % _esc(doc['cmeta'])) if doc.get('cmeta') else '',
+              CELLML_NS, CELLML_NS, CMETA_NS)]
+    order = doc.get('order') or ([['units', i] for i in range(len(doc['units']))] +
+                                 [['component', i] for i in range(len(doc['components']))] +
+                                 [['group', i] for i in range(len(doc['groups']))] +
+                                 [['connection', i] for i in range(len(doc['connections']))])
+    for kind, i in order:
+        if kind == 'units':
+            out.append(units_xml(doc['units'][i]))
+        elif kind == 'component':
+            c = doc['components'][i]
+            out.append('<component name="%s">\n' % _esc(c['name']))
+            for u in c.get('xunits') or []:
+                out.append('  ' + units_xml(u))
+            for v in c['variables']:
+                attrs = 'name="%s" units="%s"' % (_esc(v['name']), _esc(v['units']))
+                if v.get('pub') is not None:
+                    attrs += ' public_interface="%s"' % v['pub']
+                if v.get('priv') is not None:
+                    attrs += ' private_interface="%s"' % v['priv']
+                if v.get('init') is not None:
+                    attrs += ' initial_value="%s"' % _esc(v['init'])
+                if v.get('cmeta') is not None:
+                    attrs += ' cmeta:id="%s"' % _esc(v['cmeta'])
+                out.append('  <variable %s/>\n' % attrs)
+            vname = c['variables'][0]['name'] if c['variables'] else 'x'
+            for _ in range(c.get('reactions') or 0):
+                out.append('  <reaction reversible="no"><variable_ref variable="%s"><role role="reactant" '
+                           'stoichiometry="1"/></variable_ref></reaction>\n' % _esc(vname))
+            bad = c.get('badeqs') or []
+            for j in range(len(c['maths']) + 1):
+                for b in bad:
+                    if min(b['at'], len(c['maths'])) == j:
+                        out.append('  <math xmlns="%s"><apply><eq/>%s%s</apply></math>\n'
+                                   % (MATHML_NS, xexpr_xml(b['lhs']), expr_xml(b['rhs'])))
+                if j < len(c['maths']):
+                    out.append('  <math xmlns="%s">%s</math>\n' % (MATHML_NS, ''.join(eq_xml(e) for e in c['maths'][j])))
+            out.append('</component>\n')
+        elif kind == 'group':
+            g = doc['groups'][i]
+            rel = '<relationship_ref relationship="%s"%s/>' % (g['relationship'],
+                                                             (' name="%s"' % _esc(g['name'])) if g.get('name') else '')
+            out.append('<group>%s%s</group>\n' % (rel, ''.join(_ref_xml(r) for r in g['refs'])))
+        elif kind == 'connection':
+            cn = doc['connections'][i]
+            out.append('<connection><map_components component_1="%s" component_2="%s"/>%s</connection>\n' % (
+                _esc(cn['c1']), _esc(cn['c2']),
+                ''.join('<map_variables variable_1="%s" variable_2="%s"/>' % (_esc(a), _esc(b)) for a, b in cn['vars'])))
+    out.append('</model>\n')
+    text = ''.join(out)
+    for f in doc.get('xml_faults') or []:
+        text = apply_xml_fault(text, f)
+    return text
+
+
+def parent_edges(doc):
+    """(parent, child) pairs of the encapsulation groups, document order"""
+    out = []
+
+    def walk(refs, par):
+        for r in refs:
+            if par is not None:
+                out.append((par, r['component']))
+            walk(r['children'], r['component'])
+    order = doc.get('order') or [['group', i] for i in range(len(doc['groups']))]
+    for kind, i in order:
+        if kind == 'group' and doc['groups'][i]['relationship'] == 'encapsulation':
+            walk(doc['groups'][i]['refs'], None)
+    return out
+
+
+def parent_map(doc):
+    return {c: p for p, c in parent_edges(doc)}
+
+
+def relation(par, a, b):
+    """'sibling' | 'down' (a is the parent of b) | 'up' | 'self' | None (not adjacent)"""
+    if a == b:
+        return 'self'
+    if par.get(b) == a:
+        return 'down'
+    if par.get(a) == b:
+        return 'up'
+    if par.get(a) == par.get(b):
+        return 'sibling'
+    return None
+
+
+def _iface(v, f):
+    return v.get(f) if v.get(f) in ('in', 'out') else 'none'
+
+
+def connection_ends(doc):
+    """every <map_variables> with what the specification says about it:
+    dicts {ci, vi, a: (comp, var), b: (comp, var), rel, ia, ib (the interfaces that face each other), src, tgt}"""
+    par = parent_map(doc)
+    decl = {(c['name'], v['name']): v for c in doc['components'] for v in c['variables']}
+    out = []
+    for ci, cn in enumerate(doc['connections']):
+        for vi, (v1, v2) in enumerate(cn['vars']):
+            a, b = (cn['c1'], v1), (cn['c2'], v2)
+            e = {'ci': ci, 'vi': vi, 'a': a, 'b': b, 'rel': relation(par, cn['c1'], cn['c2']), 'src': None, 'tgt': None}
+            if a in decl and b in decl and e['rel'] in ('sibling', 'down', 'up', 'self'):
+                fa = 'priv' if e['rel'] == 'down' else 'pub'
+                fb = 'priv' if e['rel'] == 'up' else 'pub'
+                e['ia'], e['ib'] = _iface(decl[a], fa), _iface(decl[b], fb)
+                if (e['ia'], e['ib']) == ('out', 'in'):
+                    e['src'], e['tgt'] = a, b
+                elif (e['ia'], e['ib']) == ('in', 'out'):
+                    e['src'], e['tgt'] = b, a
+            out.append(e)
+    return out
+
+
+# fault classes of the property (load_model must raise) and extra classes of broken documents outside its list
+PROPERTY_CLASSES = ['component-units', 'reaction', 'units-offset', 'units-cycle', 'units-dangling', 'units-duplicate',
+                    'units-builtin-override', 'missing-component', 'missing-variable', 'both-sources', 'both-receivers',
+                    'no-direction', 'non-adjacent', 'incompatible-units', 'two-sources', 'defined-twice',
+                    'undefined-identifier', 'undefined-unit', 'nonvar-lhs', 'higher-order-lhs', 'duplicate-component',
+                    'schema']
+EXTRA_CLASSES = ['duplicate-variable', 'two-parents', 'unfed-relay', 'state-without-init', 'self-connection']
+
+
+def _expr_walk(e, idents, units):
+    op = e[0]
+    if op == 'num':
+        units.append(e[2])
+    elif op == 'var':
+        idents.append(e[1])
+    elif op in ('diff', 'diffn'):
+        idents.extend([e[1], e[2]])
+    else:
+        for a in e[1:]:
+            if isinstance(a, list):
+                _expr_walk(a, idents, units)
+
+
+def spec_violations(doc):
+    """set of fault classes the document has according to the CellML 1.0 specification (+ the features cellmlmanip
+    documents as unsupported). Empty set = the document is valid and supported: load_model must return a model."""
+    out = set()
+    # ---- units (5.4): unique names, no redefinition of the standard units, no cycles, references resolve, offsets
+    names = [u['name'] for u in doc['units']]
+    if len(set(names)) != len(names):
+        out.add('units-duplicate')
+    if any(n in U.SI or n == 'celsius' for n in names):
+        out.add('units-builtin-override')
+    defs = {}
+    for u in doc['units']:
+        defs.setdefault(u['name'], u)
+    known = set(U.SI) | set(defs)
+    state = {}
+
+    def visit(n):
+        if n not in defs or state.get(n) == 2:
+            return
+        if state.get(n) == 1:
+            out.add('units-cycle')
+            return
+        state[n] = 1
+        for e in defs[n].get('elems') or []:
+            if e['units'] not in known:
+                out.add('units-dangling')
+            visit(e['units'])
+        state[n] = 2
+    for u in doc['units']:
+        if not u.get('base'):
+            for e in u.get('elems') or []:
+                if e.get('offset') is not None:
+                    try:
+                        if Fraction(e['offset'].strip()) != 0:
+                            out.add('units-offset')
+                    except (ValueError, ZeroDivisionError):
+                        out.add('schema')
+    for n in names:
+        visit(n)
+    usable = 'units-cycle' not in out and 'units-dangling' not in out and 'units-duplicate' not in out
+    scale = None
+    if usable:
+        try:
+            scale = unit_scales(doc)
+        except DocError:
+            scale = None
+    # ---- components and variables (3.4.2, 3.4.3)
+    cnames = [c['name'] for c in doc['components']]
+    if len(set(cnames)) != len(cnames):
+        out.add('duplicate-component')
+    decl = {}
+    for c in doc['components']:
+        if c.get('xunits'):
+            out.add('component-units')
+        if c.get('reactions'):
+            out.add('reaction')
+        vn = [v['name'] for v in c['variables']]
+        if len(set(vn)) != len(vn):
+            out.add('duplicate-variable')
+        for v in c['variables']:
+            decl.setdefault((c['name'], v['name']), v)
+            if v['units'] not in known:
+                out.add('undefined-unit')
+            if v.get('pub') == 'in' and v.get('priv') == 'in':
+                out.add('schema')
+            if v.get('init') is not None and 'in' in (v.get('pub'), v.get('priv')):
+                out.add('schema')
+    # ---- encapsulation (6.4.3): one parent at most
+    kids = [c for _, c in parent_edges(doc)]
+    if len(set(kids)) != len(kids):
+        out.add('two-parents')
+    # ---- connections (3.4.5, 3.4.6)
+    ends = connection_ends(doc)
+    targets, fed, sources = {}, set(), []
+    for e in ends:
+        if e['a'][0] not in cnames or e['b'][0] not in cnames:
+            out.add('missing-component')
+            continue
+        if e['a'] not in decl or e['b'] not in decl:
+            out.add('missing-variable')
+            continue
+        if e['rel'] is None:
+            out.add('non-adjacent')
+            continue
+        if e['rel'] == 'self':
+            out.add('self-connection')
+        if e['src'] is None:
+            pair = (e['ia'], e['ib'])
+            out.add('both-sources' if pair == ('out', 'out') else 'both-receivers' if pair == ('in', 'in')
+                    else 'no-direction')
+            continue
+        targets[e['tgt']] = targets.get(e['tgt'], 0) + 1
+        fed.add(e['tgt'])
+        sources.append(e['src'])
+        if scale is not None:
+            try:
+                if scale(decl[e['a']]['units'])[1] != scale(decl[e['b']]['units'])[1]:
+                    out.add('incompatible-units')
+            except DocError:
+                pass
+    if any(n > 1 for n in targets.values()):
+        out.add('two-sources')
+    for s in sources:
+        if 'in' in (decl[s].get('pub'), decl[s].get('priv')) and s not in fed:
+            out.add('unfed-relay')
+    # ---- maths (4.4): identifiers, units of numbers, shape of the left-hand side, one definition per quantity
+    parent = {k: k for k in decl}
+
+    def find(x):
+        while parent[x] != x:
+            parent[x] = parent[parent[x]]
+            x = parent[x]
+        return x
+    for e in ends:
+        if e['src'] is not None:
+            parent[find(e['a'])] = find(e['b'])
+    ndef, odes = {}, set()
+    for c in doc['components']:
+        eqs = [eq for m in c['maths'] for eq in m]
+        for b in c.get('badeqs') or []:
+            out.add('higher-order-lhs' if b['lhs'][0] == 'diffn' else 'nonvar-lhs')
+            eqs = eqs + [{'lhs': None, 'rhs': b['rhs'], 'xl': b['lhs']}]
+        for eq in eqs:
+            idents, units = [], []
+            _expr_walk(eq['rhs'], idents, units)
+            _expr_walk(eq.get('xl') or eq['lhs'], idents, units)
+            if any((c['name'], x) not in decl for x in idents):
+                out.add('undefined-identifier')
+            if any(u not in known for u in units):
+                out.add('undefined-unit')
+            if eq['lhs'] is not None and (c['name'], eq['lhs'][1]) in decl:
+                k = find((c['name'], eq['lhs'][1]))
+                ndef[k] = ndef.get(k, 0) + 1
+                if eq['lhs'][0] == 'diff':
+                    odes.add(k)
+    for key, v in decl.items():
+        if v.get('init') is not None and find(key) not in odes:
+            ndef[find(key)] = ndef.get(find(key), 0) + 1
+    if any(n > 1 for n in ndef.values()):
+        out.add('defined-twice')
+    for k in odes:
+        if not any(v.get('init') is not None for key, v in decl.items() if find(key) == k):
+            out.add('state-without-init')
+    if doc.get('xml_faults'):
+        out.add('schema')
+    return out
+
+
+# ------------------------------------------------------------------------------------------- sites and injectors
+_LIST_OF = {'units': 'units', 'component': 'components', 'group': 'groups', 'connection': 'connections'}
+OTHER_DIM_UNITS = ['ampere', 'kelvin', 'mole', 'candela', 'kilogram']
+
+
+def _order(doc):
+    if not doc.get('order'):
+        doc['order'] = ([['units', i] for i in range(len(doc['units']))] +
+                        [['component', i] for i in range(len(doc['components']))] +
+                        [['group', i] for i in range(len(doc['groups']))] +
+                        [['connection', i] for i in range(len(doc['connections']))])
+    return doc['order']
+
+
+def _add(doc, kind, item, where='last'):
+    """append `item` to the document, placing its element first / in the middle / last among <model>'s children"""
+    order = _order(doc)
+    lst = doc[_LIST_OF[kind]]
+    lst.append(item)
+    pos = {'first': 0, 'middle': len(order) // 2}.get(where, len(order))
+    order.insert(pos, [kind, len(lst) - 1])
+
+
+def _var(doc, ref):
+    for c in doc['components']:
+        if c['name'] == ref[0]:
+            for v in c['variables']:
+                if v['name'] == ref[1]:
+                    return v
+    return None
+
+
+def _comp(doc, name):
+    return next((c for c in doc['components'] if c['name'] == name), None)
+
+
+def _fresh(comp, base):
+    used = {v['name'] for v in comp['variables']}
+    n, i = base, 0
+    while n in used:
+        i += 1
+        n = '%s%d' % (base, i)
+    return n
+
+
+def _facing(e, which):
+    """(variable ref, interface attribute) of the source / target end of a valid connection"""
+    ref = e[which]
+    is_a = ref == e['a']
+    if e['rel'] == 'down':
+        return ref, ('priv' if is_a else 'pub')
+    if e['rel'] == 'up':
+        return ref, ('pub' if is_a else 'priv')
+    return ref, 'pub'
+
+
+def _class_defined(doc):
+    """(component, variable) -> True when the connected class of the variable already has a definition"""
+    try:
+        sem = doc_semantics(doc)
+    except DocError:
+        return lambda ref: False
+    find = sem['find']
+    done = set(sem['defs']) | set(sem['odes']) | set(sem['init'])
+    return lambda ref: ref in sem['decl'] and find(ref) in done
+
+
+def fault_sites(doc):
+    """every (kind, site) at which a fault can be injected into this VALID document; sites are JSON lists"""
+    out = []
+    ends = [e for e in connection_ends(doc) if e['src'] is not None]
+    defined = _class_defined(doc)
+    fed = {e['tgt'] for e in ends}
+    for e in ends:
+        key = [e['ci'], e['vi']]
+        out += [('missing-variable', key + [1]), ('missing-variable', key + [2]), ('both-sources', key),
+                ('both-receivers', key), ('no-direction', key + ['both']), ('no-direction', key + ['src']),
+                ('no-direction', key + ['tgt']), ('incompatible-units', key + [1]), ('incompatible-units', key + [2]),
+                ('two-sources', key + ['new']), ('two-sources', key + ['dup'])]
+        if defined(e['tgt']):
+            out.append(('defined-twice', ['conn'] + key))
+        if e['src'] in fed:
+            out.append(('unfed-relay', key))
+    for ci in range(len(doc['connections'])):
+        out += [('missing-component', [ci, 1]), ('missing-component', [ci, 2])]
+    par = parent_map(doc)
+    names = [c['name'] for c in doc['components']]
+    for i, a in enumerate(names):
+        for j, b in enumerate(names):
+            if i < j and relation(par, a, b) is None:
+                out += [('non-adjacent', [i, j, 0]), ('non-adjacent', [i, j, 1])]
+    for ci, c in enumerate(doc['components']):
+        out += [('duplicate-component', [ci, w]) for w in ('last', 'middle')]
+        out += [('component-units', [ci]), ('reaction', [ci])]
+        nm = len(c['maths'])
+        for at in sorted({0, nm // 2, nm}):
+            if c['variables']:
+                out += [('nonvar-lhs', [ci, at, k]) for k in ('sum', 'number', 'neg')]
+            if len(c['variables']) >= 2:
+                out += [('higher-order-lhs', [ci, at, n]) for n in (2, 3)]
+        for vi, v in enumerate(c['variables']):
+            out.append(('undefined-unit', ['var', ci, vi]))
+            out.append(('duplicate-variable', [ci, vi]))
+        for mi, m in enumerate(c['maths']):
+            for ei, eq in enumerate(m):
+                out += [('defined-twice', ['eq', ci, mi, ei]), ('undefined-unit', ['eq', ci, mi, ei]),
+                        ('undefined-identifier', [ci, mi, ei, 'rhs']), ('undefined-identifier', [ci, mi, ei, 'lhs'])]
+                v = next((x for x in c['variables'] if x['name'] == eq['lhs'][1]), None)
+                if eq['lhs'][0] == 'var' and v is not None and 'in' not in (v.get('pub'), v.get('priv')):
+                    out.append(('defined-twice', ['init', ci, mi, ei]))
+    for where in ('first', 'middle', 'last'):
+        out += [('units-offset', [where, o]) for o in ('273.15', '32', '-1', '0.5')]
+        out += [('units-cycle', [where, n]) for n in (1, 2, 3)]
+        out += [('units-dangling', [where]), ('units-duplicate', [where, 'new']),
+                ('units-builtin-override', [where, 'volt', 0]), ('units-builtin-override', [where, 'litre', 1]),
+                ('units-builtin-override', [where, 'second', 0])]
+    for ui, u in enumerate(doc['units']):
+        out += [('units-duplicate', ['last', ui]), ('units-duplicate', ['first', ui])]
+        if not u.get('base'):
+            out += [('units-dangling', ['edit', ui]), ('units-offset', ['edit', ui]), ('units-cycle', ['edit', ui])]
+    if len(names) >= 3:
+        for ci in range(len(names)):
+            out.append(('two-parents', [ci]))
+    return out
+
+
+def inject(doc, kind, site, rng):
+    """the fault `kind` at `site` of a valid document: returns (faulty document, touched regions) or None when the site
+    no longer exists (second fault of a pair). The regions are what `diff_regions` must report — nothing else changes."""
+    d = copy.deepcopy(doc)
+    ends = {(e['ci'], e['vi']): e for e in connection_ends(d)}
+    comps = d['components']
+
+    def vreg(ref):
+        return 'var:%s:%s' % ref
+    try:
+        if kind == 'missing-component':
+            cn = d['connections'][site[0]]
+            cn['c1' if site[1] == 1 else 'c2'] = 'nosuchcomp'
+            return d, {'conn:%d' % site[0]}
+        if kind == 'missing-variable':
+            d['connections'][site[0]]['vars'][site[1]][site[2] - 1] = 'nosuchvar'
+            return d, {'conn:%d' % site[0]}
+        if kind in ('both-sources', 'both-receivers', 'no-direction', 'incompatible-units', 'two-sources', 'unfed-relay') \
+                or (kind == 'defined-twice' and site[0] == 'conn'):
+            key = (site[1], site[2]) if kind == 'defined-twice' else (site[0], site[1])
+            e = ends.get(key)
+            if e is None or e['src'] is None:
+                return None
+            (sref, sf), (tref, tf) = _facing(e, 'src'), _facing(e, 'tgt')
+            sv, tv = _var(d, sref), _var(d, tref)
+            if kind == 'both-sources':
+                tv[tf] = 'out'
+                return d, {vreg(tref)}
+            if kind == 'both-receivers':
+                sv[sf] = 'in'
+                return d, {vreg(sref)}
+            if kind == 'no-direction':
+                none = lambda: rng.choice(['none', None])     # noqa: E731
+                touched = set()
+                if site[2] in ('both', 'src'):
+                    sv[sf] = none()
+                    touched.add(vreg(sref))
+                if site[2] in ('both', 'tgt'):
+                    tv[tf] = none()
+                    touched.add(vreg(tref))
+                return d, touched
+            if kind == 'incompatible-units':
+                ref = e['a'] if site[2] == 1 else e['b']
+                scale = unit_scales(d)
+                other = _var(d, e['b'] if site[2] == 1 else e['a'])
+                cands = [u for u in OTHER_DIM_UNITS + ['second', 'volt', 'dimensionless']
+                         if scale(u)[1] != scale(other['units'])[1]]
+                _var(d, ref)['units'] = rng.choice(cands)
+                return d, {vreg(ref)}
+            if kind == 'two-sources':
+                cn = d['connections'][e['ci']]
+                if site[2] == 'dup':
+                    cn['vars'].append(list(cn['vars'][e['vi']]))
+                    return d, {'conn:%d' % e['ci']}
+                sc = _comp(d, sref[0])
+                nv = {'name': _fresh(sc, 'src2'), 'units': sv['units'], 'init': None, 'cmeta': None,
+                      'pub': sv.get('pub') if sv.get('pub') != 'in' else 'none',
+                      'priv': sv.get('priv') if sv.get('priv') != 'in' else 'none'}
+                sc['variables'].append(nv)
+                pair = [nv['name'], tref[1]] if sref == e['a'] else [tref[1], nv['name']]
+                if rng.random() < 0.5:
+                    cn['vars'].append(pair)
+                    return d, {'conn:%d' % e['ci'], vreg((sref[0], nv['name']))}
+                _add(d, 'connection', {'c1': cn['c1'], 'c2': cn['c2'], 'vars': [pair]}, rng.choice(['first', 'middle', 'last']))
+                return d, {'conn+', vreg((sref[0], nv['name']))}
+            if kind == 'unfed-relay':
+                feeders = [(k, f) for k, f in ends.items() if f['tgt'] == sref]
+                if not feeders:
+                    return None
+                (fci, fvi), _ = feeders[0]
+                del d['connections'][fci]['vars'][fvi]
+                if not d['connections'][fci]['vars']:
+                    d['connections'][fci]['vars'] = None      # placeholder: removed below
+                    d['connections'] = [c_ for c_ in d['connections'] if c_['vars'] is not None]
+                    d['order'] = [[k_, (i if k_ != 'connection' or i < fci else i - 1)] for k_, i in _order(d)
+                                  if not (k_ == 'connection' and i == fci)]
+                    return d, {'conn-'}
+                return d, {'conn:%d' % fci}
+            if kind == 'defined-twice':
+                tc = _comp(d, tref[0])
+                tc['maths'].append([{'lhs': ['var', tref[1]], 'rhs': ['num', '3', tv['units']]}])
+                return d, {'maths:%s' % tref[0]}
+        if kind == 'non-adjacent':
+            a, b = comps[site[0]], comps[site[1]]
+            if site[2]:
+                a, b = b, a
+            u = rng.choice(['volt', 'second', 'dimensionless'])
+            sn, tn = _fresh(a, 'far_src'), _fresh(b, 'far_in')
+            a['variables'].append({'name': sn, 'units': u, 'pub': 'out', 'priv': 'out', 'init': '1.5', 'cmeta': None})
+            b['variables'].append({'name': tn, 'units': u, 'pub': 'in', 'priv': None, 'init': None, 'cmeta': None})
+            cn = {'c1': a['name'], 'c2': b['name'], 'vars': [[sn, tn]]}
+            if rng.random() < 0.5:
+                cn = {'c1': b['name'], 'c2': a['name'], 'vars': [[tn, sn]]}
+            _add(d, 'connection', cn, rng.choice(['first', 'middle', 'last']))
+            return d, {'conn+', vreg((a['name'], sn)), vreg((b['name'], tn))}
+        if kind == 'duplicate-component':
+            c2 = copy.deepcopy(comps[site[0]])
+            for v in c2['variables']:
+                v['cmeta'] = None
+            _add(d, 'component', c2, site[1])
+            return d, {'comp+'}
+        if kind == 'component-units':
+            comps[site[0]]['xunits'] = [{'name': 'local_u', 'elems': [{'units': 'volt', 'prefix': 'milli'}]}]
+            return d, {'x:%s' % comps[site[0]]['name']}
+        if kind == 'reaction':
+            comps[site[0]]['reactions'] = rng.choice([1, 1, 2])
+            return d, {'x:%s' % comps[site[0]]['name']}
+        if kind in ('nonvar-lhs', 'higher-order-lhs'):
+            c = comps[site[0]]
+            vs = c['variables']
+            x = rng.choice(vs)
+            rhs = ['num', '3', x['units']]
+            if kind == 'higher-order-lhs':
+                t = rng.choice([v for v in vs if v is not x])
+                lhs = ['diffn', x['name'], t['name'], site[2]]
+            elif site[2] == 'sum':
+                lhs = ['+', ['var', x['name']], ['num', '1', x['units']]]
+            elif site[2] == 'number':
+                lhs, rhs = ['num', '3', x['units']], ['var', x['name']]
+            else:
+                lhs = ['neg', ['var', x['name']]]
+            c.setdefault('badeqs', []).append({'at': site[1], 'lhs': lhs, 'rhs': rhs})
+            return d, {'x:%s' % c['name']}
+        if kind == 'duplicate-variable':
+            c = comps[site[0]]
+            v2 = dict(c['variables'][site[1]], cmeta=None)
+            c['variables'].append(v2)
+            return d, {'var:%s:%s' % (c['name'], v2['name'])}
+        if kind == 'undefined-unit' and site[0] == 'var':
+            c = comps[site[1]]
+            c['variables'][site[2]]['units'] = 'nosuchunit'
+            return d, {'var:%s:%s' % (c['name'], c['variables'][site[2]]['name'])}
+        if kind in ('undefined-unit', 'undefined-identifier', 'defined-twice'):
+            ci, mi, ei = (site[1], site[2], site[3]) if site[0] in ('eq', 'init') else (site[0], site[1], site[2])
+            c = comps[ci]
+            eq = c['maths'][mi][ei]
+            if kind == 'undefined-unit':
+                eq['rhs'] = ['+', eq['rhs'], ['num', '1', 'nosuchunit']]
+            elif kind == 'undefined-identifier':
+                if site[3] == 'lhs':
+                    eq['lhs'] = [eq['lhs'][0], 'nosuchvar'] + eq['lhs'][2:]
+                else:
+                    eq['rhs'] = rng.choice([['+', eq['rhs'], ['var', 'nosuchvar']], ['*', ['var', 'nosuchvar'], eq['rhs']]])
+            elif site[0] == 'init':
+                v = next(x for x in c['variables'] if x['name'] == eq['lhs'][1])
+                v['init'] = '1.5'
+                return d, {'var:%s:%s' % (c['name'], v['name'])}
+            else:
+                dup = copy.deepcopy(eq)
+                if rng.random() < 0.5:
+                    c['maths'].append([dup])
+                else:
+                    c['maths'][mi].insert(ei + 1, dup)
+            return d, {'maths:%s' % c['name']}
+        return _inject_units(d, doc, kind, site, rng)
+    except (IndexError, KeyError, StopIteration):
+        return None
+
+
+def _inject_units(d, doc, kind, site, rng):
+    def used_name(base):
+        names = {u['name'] for u in d['units']}
+        n, i = base, 0
+        while n in names or n in U.SI:
+            i += 1
+            n = '%s%d' % (base, i)
+        return n
+    if kind == 'two-parents':
+        names = [c['name'] for c in d['components']]
+        c = names[site[0]]
+        a, b = rng.sample([n for n in names if n != c], 2)
+        d['groups'].append({'relationship': 'encapsulation', 'name': None,
+                            'refs': [{'component': a, 'children': [{'component': c, 'children': []}]},
+                                     {'component': b, 'children': [{'component': c, 'children': []}]}]})
+        _order(d).append(['group', len(d['groups']) - 1])
+        return d, {'groups'}
+    if site[0] == 'edit':
+        u = d['units'][site[1]]
+        if kind == 'units-dangling':
+            rng.choice(u['elems'])['units'] = 'nowhere_unit'
+        elif kind == 'units-offset':
+            rng.choice(u['elems'])['offset'] = rng.choice(['273.15', '32', '-1', '5'])
+        elif kind == 'units-cycle':
+            u['elems'].append({'units': u['name'], 'exponent': '2'})
+        else:
+            return None
+        return d, {'units'}
+    where = site[0]
+    if kind == 'units-offset':
+        _add(d, 'units', {'name': used_name('deg_off'), 'elems': [{'units': 'kelvin', 'offset': site[1]}]}, where)
+    elif kind == 'units-cycle':
+        ns = [used_name('cyc%d_' % i) for i in range(site[1])]
+        for i, n in enumerate(ns):
+            _add(d, 'units', {'name': n, 'elems': [{'units': ns[(i + 1) % len(ns)]}, {'units': 'second', 'exponent': '-1'}]},
+                 where)
+    elif kind == 'units-dangling':
+        _add(d, 'units', {'name': used_name('dangling'), 'elems': [{'units': 'volt'}, {'units': 'nowhere_unit'}]}, where)
+    elif kind == 'units-duplicate':
+        if site[1] == 'new':
+            n = used_name('twice')
+            _add(d, 'units', {'name': n, 'elems': [{'units': 'volt', 'prefix': 'milli'}]}, 'first')
+            _add(d, 'units', {'name': n, 'elems': [{'units': 'volt', 'prefix': 'milli'}]}, where)
+        else:
+            u = copy.deepcopy(d['units'][site[1]])
+            if rng.random() < 0.3:
+                u = {'name': u['name'], 'base': True}
+            _add(d, 'units', u, where)
+    elif kind == 'units-builtin-override':
+        u = {'name': site[1], 'base': True} if site[2] else {'name': site[1], 'elems': [{'units': 'metre', 'exponent': '3'}]}
+        _add(d, 'units', u, where)
+    else:
+        return None
+    return d, {'units'}
+
+
+def diff_regions(a, b):
+    """where two documents differ: 'units', 'groups', 'comp+', 'conn+', 'conn-', 'conn:<i>', 'var:<comp>:<name>',
+    'maths:<comp>', 'x:<comp>' (extended fields), 'cname:<i>'"""
+    out = set()
+    if a['units'] != b['units']:
+        out.add('units')
+    if a['groups'] != b['groups']:
+        out.add('groups')
+    if len(a['components']) != len(b['components']):
+        out.add('comp+')
+    for i, (ca, cb) in enumerate(zip(a['components'], b['components'])):
+        if ca['name'] != cb['name']:
+            out.add('cname:%d' % i)
+        if ca['variables'] != cb['variables']:
+            va, vb = ca['variables'], cb['variables']
+            for j in range(max(len(va), len(vb))):
+                x, y = (va[j] if j < len(va) else None), (vb[j] if j < len(vb) else None)
+                if x != y:
+                    out.add('var:%s:%s' % (cb['name'], (y or x)['name']))
+        if ca['maths'] != cb['maths']:
+            out.add('maths:%s' % cb['name'])
+        if any(ca.get(f) != cb.get(f) for f in ('xunits', 'reactions', 'badeqs')):
+            out.add('x:%s' % cb['name'])
+    if len(a['connections']) < len(b['connections']):
+        out.add('conn+')
+    elif len(a['connections']) > len(b['connections']):
+        out.add('conn-')
+    else:
+        for i, (x, y) in enumerate(zip(a['connections'], b['connections'])):
+            if x != y:
+                out.add('conn:%d' % i)
+    return out
+
+
+NEUTRAL = ['none', 'permute', 'unused-variable', 'unused-units', 'lonely-component', 'same-dimension-unit']
+
+
+def neutral(doc, kind, rng):
+    """a VALID variant of a valid document, made with the same machinery as the faults: must still load"""
+    d = copy.deepcopy(doc)
+    if kind == 'permute':
+        return permute_doc(d, rng)
+    if kind == 'unused-variable' and d['components']:
+        c = rng.choice(d['components'])
+        c['variables'].append({'name': _fresh(c, 'unused'), 'units': 'volt', 'pub': rng.choice([None, 'out', 'in']),
+                               'priv': rng.choice([None, 'none']), 'init': None, 'cmeta': None})
+    elif kind == 'unused-units':
+        names = {u['name'] for u in d['units']}
+        if 'spare_u' not in names:
+            _add(d, 'units', {'name': 'spare_u', 'elems': [{'units': 'volt', 'prefix': 'kilo'}, {'units': 'second', 'offset': '0'}]},
+                 rng.choice(['first', 'middle', 'last']))
+    elif kind == 'lonely-component':
+        if not any(c['name'] == 'lonely' for c in d['components']):
+            _add(d, 'component', {'name': 'lonely', 'variables': [{'name': 'q', 'units': 'volt', 'pub': None, 'priv': None,
+                                                                   'init': '2', 'cmeta': None}], 'maths': []},
+                 rng.choice(['first', 'middle', 'last']))
+    elif kind == 'same-dimension-unit':
+        ends = [e for e in connection_ends(d) if e['src'] is not None]
+        if ends:
+            e = rng.choice(ends)
+            tv = _var(d, e['tgt'])
+            scale = unit_scales(d)
+            dim = scale(tv['units'])[1]
+            cands = [u for u in ['volt', 'second', 'dimensionless', 'hertz'] + [x['name'] for x in d['units']]
+                     if scale(u)[1] == dim]
+            tv['units'] = rng.choice(cands)
+    return d
+
+
+# ------------------------------------------------------------------------------------------- schema faults (text level)
+import re as _re  # noqa: E402
+
+
+def _nth(pattern, text, n):
+    ms = list(_re.finditer(pattern, text))
+    return ms[min(n, len(ms) - 1)] if ms else None
+
+
+def apply_xml_fault(text, f):
+    """damage the XML text at one place; returns the text unchanged when the place does not exist"""
+    kind, what, n = f['kind'], f.get('what'), f.get('n', 0)
+    if kind == 'unknown-element':
+        m = _nth(r'<%s(?: [^>]*[^/>])?>' % what, text, n)
+        return text if m is None else text[:m.end()] + '<bogus/>' + text[m.end():]
+    if kind == 'missing-attribute':
+        el, attr = what
+        m = _nth(r'<%s [^>]*?( %s="[^"]*")' % (el, attr), text, n)
+        if m is None:
+            m = _nth(r'<%s( %s="[^"]*")' % (el, attr), text, n)
+        return text if m is None else text[:m.start(1)] + text[m.end(1):]
+    if kind == 'wrong-namespace':
+        return text.replace('xmlns="%s"' % CELLML_NS, 'xmlns="%s"' % what, 1)
+    if kind == 'bad-value':
+        attr, val = what
+        m = _nth(r' %s="([^"]*)"' % attr, text, n)
+        if m is None:           # attribute absent everywhere: add it to the n-th variable
+            m2 = _nth(r'<variable ', text, n)
+            return text if m2 is None else text[:m2.end()] + '%s="%s" ' % (attr, val) + text[m2.end():]
+        return text[:m.start(1)] + val + text[m.end(1):]
+    if kind == 'empty-connection':
+        m = _nth(r'<connection>.*?</connection>', text, n)
+        if m is None:
+            return text
+        return text[:m.start()] + _re.sub(r'<map_variables [^>]*/>', '', m.group(0)) + text[m.end():]
+    if kind == 'no-map-components':
+        m = _nth(r'<map_components [^>]*/>', text, n)
+        return text if m is None else text[:m.start()] + text[m.end():]
+    if kind == 'malformed':
+        if what == 'truncate':
+            return text[:max(40, (len(text) * (n + 1)) // 4)]
+        if what == 'unclosed':
+            m = _nth(r'</component>', text, n)
+            return text if m is None else text[:m.start()] + text[m.end():]
+        if what == 'stray-lt':
+            m = _nth(r'<variable ', text, n)
+            return text if m is None else text[:m.start()] + '< ' + text[m.start():]
+        if what == 'bad-entity':
+            m = _nth(r' name="', text, n)
+            return text if m is None else text[:m.end()] + '&nosuch;' + text[m.end():]
+        if what == 'mismatched-tag':
+            m = _nth(r'</component>', text, n)
+            return text if m is None else text[:m.start()] + '</group>' + text[m.end():]
+    return text
+
+
+def xml_fault_sites(doc):
+    """schema-level faults applicable to this document (text-level; `n` = which occurrence: first / middle / last)"""
+    nv = sum(len(c['variables']) for c in doc['components'])
+    nc, nk, nu = len(doc['components']), len(doc['connections']), len([u for u in doc['units'] if not u.get('base')])
+    nm = sum(len(cn['vars']) for cn in doc['connections'])
+
+    def occ(k):
+        return sorted({0, k // 2, k - 1}) if k > 0 else []
+    out = [{'kind': 'unknown-element', 'what': 'model', 'n': 0}, {'kind': 'wrong-namespace', 'what': CELLML_NS.replace('1.0', '1.1')},
+           {'kind': 'wrong-namespace', 'what': 'http://example.org/not-cellml'},
+           {'kind': 'missing-attribute', 'what': ['model', 'name'], 'n': 0}]
+    out += [{'kind': 'malformed', 'what': 'truncate', 'n': n} for n in (0, 1, 2)]
+    for n in occ(nc):
+        out += [{'kind': 'unknown-element', 'what': 'component', 'n': n},
+                {'kind': 'missing-attribute', 'what': ['component', 'name'], 'n': n},
+                {'kind': 'malformed', 'what': 'unclosed', 'n': n}, {'kind': 'malformed', 'what': 'mismatched-tag', 'n': n}]
+    for n in occ(nv):
+        out += [{'kind': 'missing-attribute', 'what': ['variable', 'name'], 'n': n},
+                {'kind': 'missing-attribute', 'what': ['variable', 'units'], 'n': n},
+                {'kind': 'bad-value', 'what': ['public_interface', 'sideways'], 'n': n},
+                {'kind': 'bad-value', 'what': ['initial_value', 'abc'], 'n': n},
+                {'kind': 'malformed', 'what': 'stray-lt', 'n': n}, {'kind': 'malformed', 'what': 'bad-entity', 'n': n}]
+    for n in occ(nk):
+        out += [{'kind': 'unknown-element', 'what': 'connection', 'n': n}, {'kind': 'empty-connection', 'n': n},
+                {'kind': 'no-map-components', 'n': n},
+                {'kind': 'missing-attribute', 'what': ['map_components', 'component_1'], 'n': n}]
+    for n in occ(nm):
+        out.append({'kind': 'missing-attribute', 'what': ['map_variables', 'variable_2'], 'n': n})
+    for n in occ(nu):
+        out += [{'kind': 'unknown-element', 'what': 'units', 'n': n}, {'kind': 'missing-attribute', 'what': ['unit', 'units'], 'n': n}]
+    for n in occ(len(doc['groups'])):
+        out.append({'kind': 'unknown-element', 'what': 'group', 'n': n})
+    return out
+
+
+def xml_fault_check(valid_text, text, f):
+    """validation of a schema fault, independent of lxml: the text changed in ONE place, and it is well-formed exactly
+    when the fault is not of the malformed kind (expat)"""
+    import xml.parsers.expat as expat
+    if text == valid_text:
+        return 'text unchanged'
+    i = 0
+    while i < min(len(text), len(valid_text)) and text[i] == valid_text[i]:
+        i += 1
+    j = 0
+    while j < min(len(text), len(valid_text)) - i and text[-1 - j] == valid_text[-1 - j]:
+        j += 1
+    if f['kind'] != 'malformed' and f['kind'] != 'empty-connection' and max(len(text), len(valid_text)) - i - j > 80:
+        return 'changed region too large'
+    p = expat.ParserCreate()
+    try:
+        p.Parse(text.encode(), True)
+        wf = True
+    except expat.ExpatError:
+        wf = False
+    if wf != (f['kind'] != 'malformed'):
+        return 'well-formedness is %s' % wf
+    return None
+
+
+# ------------------------------------------------------------------------------------------- the hooks, filled in
+def _mutate(kinds):
+    def f(doc, rng):
+        sites = [s for s in fault_sites(doc) if s[0] in kinds]
+        rng.shuffle(sites)
+        for kind, site in sites:
+            r = inject(doc, kind, site, rng)
+            if r is not None:
+                return r[0]
+        return doc
+    return f
+
+
+mutate_units = _mutate(['units-offset', 'units-cycle', 'units-dangling', 'units-duplicate', 'units-builtin-override'])
+mutate_interfaces = _mutate(['both-sources', 'both-receivers', 'no-direction'])
+mutate_connections = _mutate(['missing-component', 'missing-variable', 'non-adjacent', 'incompatible-units', 'two-sources'])
+mutate_maths = _mutate(['defined-twice', 'undefined-identifier', 'undefined-unit', 'nonvar-lhs', 'higher-order-lhs'])
+mutate_structure = _mutate(['component-units', 'reaction', 'duplicate-component', 'two-parents'])
+MUTATORS = {'units': mutate_units, 'interfaces': mutate_interfaces, 'connections': mutate_connections,
+            'maths': mutate_maths, 'structure': mutate_structure}
